@@ -7,6 +7,7 @@ package main
 // themselves, so a mismatch here is always of kind "model".
 
 import (
+	"bytes"
 	"crypto/md5"
 	"fmt"
 	"math/big"
@@ -180,6 +181,52 @@ func genAttrsSrc(r *Rng) radius.Attributes {
 	return a
 }
 
+// vw hands the compiled function a view of a larger buffer: the argument's bytes followed by sentinel bytes in the
+// spare capacity. After the call the whole buffer must be what it was (no function of these files writes into, or
+// appends to, an argument).
+type viewRec struct {
+	orig, backing []byte
+}
+
+var curViews []viewRec
+
+func vw(b []byte) []byte {
+	if b == nil {
+		return nil
+	}
+	backing := make([]byte, len(b)+24)
+	copy(backing, b)
+	for i := len(b); i < len(backing); i++ {
+		backing[i] = 0xA5 ^ byte(i)
+	}
+	curViews = append(curViews, viewRec{append([]byte{}, b...), backing})
+	return backing[:len(b):len(backing)]
+}
+
+func viewsIntact() (bool, string) {
+	for _, v := range curViews {
+		if !bytes.Equal(v.backing[:len(v.orig)], v.orig) {
+			return false, fmt.Sprintf("argument %x became %x", v.orig, v.backing[:len(v.orig)])
+		}
+		for i := len(v.orig); i < len(v.backing); i++ {
+			if v.backing[i] != 0xA5^byte(i) {
+				return false, fmt.Sprintf("the memory behind argument %x (spare capacity) was overwritten at offset +%d", v.orig, i-len(v.orig))
+			}
+		}
+	}
+	return true, ""
+}
+
+// scribble overwrites every byte string of a result, as a caller who owns the result may
+func (v V) scribble() {
+	for i := range v.b {
+		v.b[i] ^= 0x5A
+	}
+	for _, k := range v.kids {
+		k.scribble()
+	}
+}
+
 func cloneAttrs(a radius.Attributes) radius.Attributes {
 	if a == nil {
 		return nil
@@ -187,9 +234,17 @@ func cloneAttrs(a radius.Attributes) radius.Attributes {
 	b := make(radius.Attributes, len(a))
 	for i, p := range a {
 		q := *p
+		q.Attribute = vw(p.Attribute) // results that alias a value alias this copy, not the generator's original
 		b[i] = &q
 	}
 	return b
+}
+
+func clonePacket(p *radius.Packet) *radius.Packet {
+	q := *p
+	q.Secret = vw(p.Secret)
+	q.Attributes = cloneAttrs(p.Attributes)
+	return &q
 }
 
 // wire-shaped attribute bytes, mostly well formed
@@ -245,7 +300,7 @@ func safeV(f func() V) (v V, panicked bool) {
 var srcFns = []srcFn{
 	{"Integer", []string{"C10"}, func(r *Rng) ([]V, func() V) {
 		a := bytesNear(r, 4)
-		return []V{vBytes(a)}, func() V { v, e := radius.Integer(cp(a)); return vTup(vU(uint64(v)), vErr(e)) }
+		return []V{vBytes(a)}, func() V { v, e := radius.Integer(vw(a)); return vTup(vU(uint64(v)), vErr(e)) }
 	}},
 	{"NewInteger", []string{"C10"}, func(r *Rng) ([]V, func() V) {
 		i := uint32(r.U64() >> uint(r.Intn(64)))
@@ -253,7 +308,7 @@ var srcFns = []srcFn{
 	}},
 	{"Short", []string{"C10"}, func(r *Rng) ([]V, func() V) {
 		a := bytesNear(r, 2)
-		return []V{vBytes(a)}, func() V { v, e := radius.Short(cp(a)); return vTup(vU(uint64(v)), vErr(e)) }
+		return []V{vBytes(a)}, func() V { v, e := radius.Short(vw(a)); return vTup(vU(uint64(v)), vErr(e)) }
 	}},
 	{"NewShort", []string{"C10"}, func(r *Rng) ([]V, func() V) {
 		i := uint16(r.U64() >> uint(r.Intn(64)))
@@ -261,7 +316,7 @@ var srcFns = []srcFn{
 	}},
 	{"Integer64", []string{"C10"}, func(r *Rng) ([]V, func() V) {
 		a := bytesNear(r, 8)
-		return []V{vBytes(a)}, func() V { v, e := radius.Integer64(cp(a)); return vTup(vU(v), vErr(e)) }
+		return []V{vBytes(a)}, func() V { v, e := radius.Integer64(vw(a)); return vTup(vU(v), vErr(e)) }
 	}},
 	{"NewInteger64", []string{"C10"}, func(r *Rng) ([]V, func() V) {
 		i := r.U64() >> uint(r.Intn(64))
@@ -269,7 +324,7 @@ var srcFns = []srcFn{
 	}},
 	{"String", []string{"C10"}, func(r *Rng) ([]V, func() V) {
 		a := bytesNear(r, 0, 253)
-		return []V{vBytes(a)}, func() V { return vStr(radius.String(cp(a))) }
+		return []V{vBytes(a)}, func() V { return vStr(radius.String(vw(a))) }
 	}},
 	{"NewString", []string{"C10"}, func(r *Rng) ([]V, func() V) {
 		s := string(bytesNear(r, 0, 253, 254))
@@ -277,39 +332,45 @@ var srcFns = []srcFn{
 	}},
 	{"Bytes", []string{"C10"}, func(r *Rng) ([]V, func() V) {
 		a := bytesNear(r, 0, 253)
-		return []V{vBytes(a)}, func() V { return vBytes(radius.Bytes(cp(a))) }
+		return []V{vBytes(a)}, func() V { return vBytes(radius.Bytes(vw(a))) }
 	}},
 	{"NewBytes", []string{"C10"}, func(r *Rng) ([]V, func() V) {
 		a := bytesNear(r, 0, 253, 254)
-		return []V{vBytes(a)}, func() V { v, e := radius.NewBytes(cp(a)); return vTup(vBytes(v), vErr(e)) }
+		return []V{vBytes(a)}, func() V { v, e := radius.NewBytes(vw(a)); return vTup(vBytes(v), vErr(e)) }
 	}},
 	{"IPAddr", []string{"C10"}, func(r *Rng) ([]V, func() V) {
 		a := bytesNear(r, 4, 16)
-		return []V{vBytes(a)}, func() V { v, e := radius.IPAddr(cp(a)); return vTup(vBytes(v), vErr(e)) }
+		if r.Intn(3) == 0 {
+			a = genIPSrc(r)
+		}
+		return []V{vBytes(a)}, func() V { v, e := radius.IPAddr(vw(a)); return vTup(vBytes(v), vErr(e)) }
 	}},
 	{"NewIPAddr", []string{"C10"}, func(r *Rng) ([]V, func() V) {
 		a := genIPSrc(r)
-		return []V{vBytes(a)}, func() V { v, e := radius.NewIPAddr(cp(a)); return vTup(vBytes(v), vErr(e)) }
+		return []V{vBytes(a)}, func() V { v, e := radius.NewIPAddr(vw(a)); return vTup(vBytes(v), vErr(e)) }
 	}},
 	{"IPv6Addr", []string{"C10"}, func(r *Rng) ([]V, func() V) {
 		a := bytesNear(r, 4, 16)
-		return []V{vBytes(a)}, func() V { v, e := radius.IPv6Addr(cp(a)); return vTup(vBytes(v), vErr(e)) }
+		if r.Intn(3) == 0 {
+			a = genIPSrc(r)
+		}
+		return []V{vBytes(a)}, func() V { v, e := radius.IPv6Addr(vw(a)); return vTup(vBytes(v), vErr(e)) }
 	}},
 	{"NewIPv6Addr", []string{"C10"}, func(r *Rng) ([]V, func() V) {
 		a := genIPSrc(r)
-		return []V{vBytes(a)}, func() V { v, e := radius.NewIPv6Addr(cp(a)); return vTup(vBytes(v), vErr(e)) }
+		return []V{vBytes(a)}, func() V { v, e := radius.NewIPv6Addr(vw(a)); return vTup(vBytes(v), vErr(e)) }
 	}},
 	{"IFID", []string{"C10"}, func(r *Rng) ([]V, func() V) {
 		a := bytesNear(r, 8)
-		return []V{vBytes(a)}, func() V { v, e := radius.IFID(cp(a)); return vTup(vBytes(v), vErr(e)) }
+		return []V{vBytes(a)}, func() V { v, e := radius.IFID(vw(a)); return vTup(vBytes(v), vErr(e)) }
 	}},
 	{"NewIFID", []string{"C10"}, func(r *Rng) ([]V, func() V) {
 		a := bytesNear(r, 8)
-		return []V{vBytes(a)}, func() V { v, e := radius.NewIFID(cp(a)); return vTup(vBytes(v), vErr(e)) }
+		return []V{vBytes(a)}, func() V { v, e := radius.NewIFID(vw(a)); return vTup(vBytes(v), vErr(e)) }
 	}},
 	{"Date", []string{"C10"}, func(r *Rng) ([]V, func() V) {
 		a := bytesNear(r, 4)
-		return []V{vBytes(a)}, func() V { v, e := radius.Date(cp(a)); return vTup(vInt(v.Unix()), vErr(e)) }
+		return []V{vBytes(a)}, func() V { v, e := radius.Date(vw(a)); return vTup(vInt(v.Unix()), vErr(e)) }
 	}},
 	{"NewDate", []string{"C10"}, func(r *Rng) ([]V, func() V) {
 		var u int64
@@ -328,14 +389,14 @@ var srcFns = []srcFn{
 	{"VendorSpecific", []string{"C10"}, func(r *Rng) ([]V, func() V) {
 		a := bytesNear(r, 4, 5, 253)
 		return []V{vBytes(a)}, func() V {
-			id, v, e := radius.VendorSpecific(cp(a))
+			id, v, e := radius.VendorSpecific(vw(a))
 			return vTup(vU(uint64(id)), vBytes(v), vErr(e))
 		}
 	}},
 	{"NewVendorSpecific", []string{"C10"}, func(r *Rng) ([]V, func() V) {
 		a := bytesNear(r, 0, 1, 249, 250)
 		id := uint32(r.U64() >> uint(r.Intn(64)))
-		return []V{vU(uint64(id)), vBytes(a)}, func() V { v, e := radius.NewVendorSpecific(id, cp(a)); return vTup(vBytes(v), vErr(e)) }
+		return []V{vU(uint64(id)), vBytes(a)}, func() V { v, e := radius.NewVendorSpecific(id, vw(a)); return vTup(vBytes(v), vErr(e)) }
 	}},
 	{"TLV", []string{"C10"}, func(r *Rng) ([]V, func() V) {
 		a := bytesNear(r, 2, 3, 255, 256)
@@ -343,14 +404,14 @@ var srcFns = []srcFn{
 			a[1] = byte(len(a))
 		}
 		return []V{vBytes(a)}, func() V {
-			ty, v, e := radius.TLV(cp(a))
+			ty, v, e := radius.TLV(vw(a))
 			return vTup(vU(uint64(ty)), vBytes(v), vErr(e))
 		}
 	}},
 	{"NewTLV", []string{"C10"}, func(r *Rng) ([]V, func() V) {
 		a := bytesNear(r, 0, 1, 253, 254)
 		ty := byte(r.Intn(256))
-		return []V{vU(uint64(ty)), vBytes(a)}, func() V { v, e := radius.NewTLV(ty, cp(a)); return vTup(vBytes(v), vErr(e)) }
+		return []V{vU(uint64(ty)), vBytes(a)}, func() V { v, e := radius.NewTLV(ty, vw(a)); return vTup(vBytes(v), vErr(e)) }
 	}},
 	{"NewIPv6Prefix", []string{"C10"}, func(r *Rng) ([]V, func() V) {
 		var n *net.IPNet
@@ -366,7 +427,7 @@ var srcFns = []srcFn{
 		return []V{arg}, func() V {
 			var m *net.IPNet
 			if n != nil {
-				m = &net.IPNet{IP: cp(n.IP), Mask: cp(n.Mask)}
+				m = &net.IPNet{IP: vw(n.IP), Mask: vw(n.Mask)}
 			}
 			v, e := radius.NewIPv6Prefix(m)
 			return vTup(vBytes(v), vErr(e))
@@ -392,7 +453,7 @@ var srcFns = []srcFn{
 				}
 			}
 		}
-		return []V{vBytes(a)}, func() V { v, e := radius.IPv6Prefix(cp(a)); return vTup(vIPNet(v), vErr(e)) }
+		return []V{vBytes(a)}, func() V { v, e := radius.IPv6Prefix(vw(a)); return vTup(vIPNet(v), vErr(e)) }
 	}},
 	{"UserPassword", []string{"C04"}, func(r *Rng) ([]V, func() V) {
 		a := bytesNear(r, 16, 32, 128, 144)
@@ -401,7 +462,7 @@ var srcFns = []srcFn{
 		}
 		s, ra := genSecretSrc(r), genAuthSrc(r)
 		return []V{vBytes(a), vBytes(s), vBytes(ra)}, func() V {
-			v, e := radius.UserPassword(cp(a), cp(s), cp(ra))
+			v, e := radius.UserPassword(vw(a), vw(s), vw(ra))
 			return vTup(vBytes(v), vErr(e))
 		}
 	}},
@@ -409,7 +470,7 @@ var srcFns = []srcFn{
 		p := bytesNear(r, 0, 15, 16, 17, 128, 129)
 		s, ra := genSecretSrc(r), genAuthSrc(r)
 		return []V{vBytes(p), vBytes(s), vBytes(ra)}, func() V {
-			v, e := radius.NewUserPassword(cp(p), cp(s), cp(ra))
+			v, e := radius.NewUserPassword(vw(p), vw(s), vw(ra))
 			return vTup(vBytes(v), vErr(e))
 		}
 	}},
@@ -423,7 +484,7 @@ var srcFns = []srcFn{
 		}
 		s, ra := genSecretSrc(r), genAuthSrc(r)
 		return []V{vBytes(a), vBytes(s), vBytes(ra)}, func() V {
-			p, salt, e := radius.TunnelPassword(cp(a), cp(s), cp(ra))
+			p, salt, e := radius.TunnelPassword(vw(a), vw(s), vw(ra))
 			return vTup(vBytes(p), vBytes(salt), vErr(e))
 		}
 	}},
@@ -438,7 +499,7 @@ var srcFns = []srcFn{
 		}
 		s, ra := genSecretSrc(r), genAuthSrc(r)
 		return []V{vBytes(p), vBytes(salt), vBytes(s), vBytes(ra)}, func() V {
-			v, e := radius.NewTunnelPassword(cp(p), cp(salt), cp(s), cp(ra))
+			v, e := radius.NewTunnelPassword(vw(p), vw(salt), vw(s), vw(ra))
 			return vTup(vBytes(v), vErr(e))
 		}
 	}},
@@ -447,7 +508,7 @@ var srcFns = []srcFn{
 		if r.Intn(10) == 0 {
 			b = r.Bytes(r.Intn(40))
 		}
-		return []V{vBytes(b)}, func() V { a, e := radius.ParseAttributes(cp(b)); return vTup(vAttrs(a), vErr(e)) }
+		return []V{vBytes(b)}, func() V { a, e := radius.ParseAttributes(vw(b)); return vTup(vAttrs(a), vErr(e)) }
 	}},
 	{"AttributesEncodedLen", []string{"C01", "C09"}, func(r *Rng) ([]V, func() V) {
 		a := genAttrsSrc(r)
@@ -456,7 +517,7 @@ var srcFns = []srcFn{
 	{"Attributes.Add", []string{"C09"}, func(r *Rng) ([]V, func() V) {
 		a := genAttrsSrc(r)
 		k, v := radius.Type(r.Intn(4)), bytesNear(r, 0, 3)
-		return []V{vAttrs(a), vInt(int64(k)), vBytes(v)}, func() V { b := cloneAttrs(a); b.Add(k, v); return vTup(vAttrs(b)) }
+		return []V{vAttrs(a), vInt(int64(k)), vBytes(v)}, func() V { b := cloneAttrs(a); b.Add(k, vw(v)); return vTup(vAttrs(b)) }
 	}},
 	{"Attributes.Del", []string{"C09"}, func(r *Rng) ([]V, func() V) {
 		a := genAttrsSrc(r)
@@ -466,7 +527,7 @@ var srcFns = []srcFn{
 	{"Attributes.Set", []string{"C09"}, func(r *Rng) ([]V, func() V) {
 		a := genAttrsSrc(r)
 		k, v := radius.Type(r.Intn(4)), bytesNear(r, 0, 3)
-		return []V{vAttrs(a), vInt(int64(k)), vBytes(v)}, func() V { b := cloneAttrs(a); b.Set(k, v); return vTup(vAttrs(b)) }
+		return []V{vAttrs(a), vInt(int64(k)), vBytes(v)}, func() V { b := cloneAttrs(a); b.Set(k, vw(v)); return vTup(vAttrs(b)) }
 	}},
 	{"Attributes.Get", []string{"C09"}, func(r *Rng) ([]V, func() V) {
 		a := genAttrsSrc(r)
@@ -480,34 +541,34 @@ var srcFns = []srcFn{
 	}},
 	{"Parse", []string{"C01", "C02"}, func(r *Rng) ([]V, func() V) {
 		b, s := genWirePacket(r), genSecretSrc(r)
-		return []V{vBytes(b), vBytes(s)}, func() V { p, e := radius.Parse(cp(b), s); return vTup(vPacket(p), vErr(e)) }
+		return []V{vBytes(b), vBytes(s)}, func() V { p, e := radius.Parse(vw(b), vw(s)); return vTup(vPacket(p), vErr(e)) }
 	}},
 	{"IsAuthenticRequest", []string{"C03"}, func(r *Rng) ([]V, func() V) {
 		b, s := genWirePacket(r), genSecretSrc(r)
 		if r.Bool() && len(b) >= 20 && len(s) > 0 {
 			signRequest(b, s)
 		}
-		return []V{vBytes(b), vBytes(s)}, func() V { return vBool(radius.IsAuthenticRequest(cp(b), cp(s))) }
+		return []V{vBytes(b), vBytes(s)}, func() V { return vBool(radius.IsAuthenticRequest(vw(b), vw(s))) }
 	}},
 	{"IsAuthenticResponse", []string{"C03", "C05"}, func(r *Rng) ([]V, func() V) {
 		resp, req, s := genWirePacket(r), genWirePacket(r), genSecretSrc(r)
 		if r.Bool() && len(resp) >= 20 && len(req) >= 20 && len(s) > 0 {
 			signResponse(resp, req, s)
 		}
-		return []V{vBytes(resp), vBytes(req), vBytes(s)}, func() V { return vBool(radius.IsAuthenticResponse(cp(resp), cp(req), cp(s))) }
+		return []V{vBytes(resp), vBytes(req), vBytes(s)}, func() V { return vBool(radius.IsAuthenticResponse(vw(resp), vw(req), vw(s))) }
 	}},
 	{"Packet.Response", []string{"C05"}, func(r *Rng) ([]V, func() V) {
 		p := genPacketSrc(r)
 		code := radius.Code(r.Intn(256))
-		return []V{vPacket(p), vInt(int64(code))}, func() V { return vPacket(p.Response(code)) }
+		return []V{vPacket(p), vInt(int64(code))}, func() V { return vPacket(clonePacket(p).Response(code)) }
 	}},
 	{"Packet.MarshalBinary", []string{"C01"}, func(r *Rng) ([]V, func() V) {
 		p := genPacketSrc(r)
-		return []V{vPacket(p)}, func() V { b, e := p.MarshalBinary(); return vTup(vBytes(b), vErr(e)) }
+		return []V{vPacket(p)}, func() V { b, e := clonePacket(p).MarshalBinary(); return vTup(vBytes(b), vErr(e)) }
 	}},
 	{"Packet.Encode", []string{"C03"}, func(r *Rng) ([]V, func() V) {
 		p := genPacketSrc(r)
-		return []V{vPacket(p)}, func() V { b, e := p.Encode(); return vTup(vBytes(b), vErr(e)) }
+		return []V{vPacket(p)}, func() V { b, e := clonePacket(p).Encode(); return vTup(vBytes(b), vErr(e)) }
 	}},
 }
 
@@ -607,12 +668,37 @@ func runSrc(c *Ctx) {
 				a.arg(&req)
 			}
 			t := &Toks{}
+			curViews = curViews[:0]
 			v, panicked := safeV(thunk)
 			if panicked {
 				t.I(2)
 			} else {
 				t.I(0)
 				v.toks(t)
+				if ok, what := viewsIntact(); !ok {
+					c.Fail("spec", "src."+f.key, "src-args:"+f.key, req.Line(""), what, "arguments and the memory behind them unchanged", "a function of attribute.go/attributes.go/packet.go does not write into (or append to) its byte-slice arguments")
+				}
+				// the caller overwrites the result; the same call again must give the same answer (no buffer shared
+				// between two results, no state kept across calls)
+				if i%4 == 0 {
+					v.scribble()
+					if fresh := f.props[0] == "C10" || f.props[0] == "C04" || f.props[0] == "C11"; fresh {
+						// the codecs of attribute.go return fresh memory: overwriting a result must not reach an argument
+						if ok, what := viewsIntact(); !ok {
+							c.Fail("spec", "src."+f.key, "src-alias:"+f.key, req.Line(""), "after the caller overwrote the result: "+what, "arguments unchanged", "a value decoded or encoded by attribute.go does not share memory with the argument it was made from")
+						}
+					}
+					curViews = curViews[:0]
+					v2, p2 := safeV(thunk)
+					t2 := &Toks{}
+					if !p2 {
+						t2.I(0)
+						v2.toks(t2)
+					}
+					if p2 || t2.String() != t.String() {
+						c.Fail("spec", "src."+f.key, "src-repeat:"+f.key, req.Line(""), t2.String(), t.String(), "the same call after the caller overwrote the first result gives the same result: results do not share memory with each other or with hidden state")
+					}
+				}
 			}
 			c.Add(Case{Req: req, Impl: t.String(), Tag: "src:" + f.key, NoSpec: true,
 				Desc: "the compiled function and the interpretation of its translation (Gen/Src.v) on the same arguments"})
